@@ -148,6 +148,23 @@ func ite[T any](c bool, a, b T) T {
 	}
 	return b
 }
+func replayPanicText(r any) string {
+	switch x := r.(type) {
+	case error:
+		return x.Error()
+	case string:
+		return x
+	}
+	return ""
+}
+func replayContains(s, sub string) bool {
+	for i := 0; i+len(sub) <= len(s); i++ {
+		if s[i:i+len(sub)] == sub {
+			return true
+		}
+	}
+	return false
+}
 `
 
 // clauseToGo renders a spec expression as Go source. old(E) sub-expressions are hoisted into variables
@@ -381,6 +398,11 @@ func tryReplay(L *Loaded, opt runOpts, id string, o *oblOutcome) *replayOutcome 
 	if fn.Parent() != nil || len(fn.TypeArgs()) > 0 {
 		return &replayOutcome{Why: "closures and generic instantiations are not replayed by the generic template"}
 	}
+	if !k2Kinds[o.q.Kind] && o.q.Kind != "panics-never" && o.q.Kind != "ensures" {
+		// the generic template can observe a panic (safety obligations) or evaluate a postcondition after the call;
+		// it has no way to observe an intermediate assertion, a loop invariant, a call precondition or a type invariant
+		return &replayOutcome{Why: "obligations of kind " + o.q.Kind + " are not observable by the generic replay template"}
+	}
 	stmts, names, ok := buildArgs(fn, o.r.Model)
 	if !ok {
 		return &replayOutcome{Why: "model could not be turned into Go arguments (non-scalar inputs or values outside the machine range)"}
@@ -420,9 +442,19 @@ func tryReplay(L *Loaded, opt runOpts, id string, o *oblOutcome) *replayOutcome 
 	}
 	body.WriteString("\tdefer func() {\n\t\tif r := recover(); r != nil {\n")
 	if k2Kinds[kind] || kind == "panics-never" {
+		// only the panic the obligation is about confirms it (a nil dereference caused by the partial arguments of the
+		// replay does not confirm an index obligation)
+		want := map[string]string{"index": "index out of range", "slice": "slice bounds out of range", "div0": "divide by zero",
+			"shift": "negative shift amount", "typeassert": "interface conversion", "makeslice": "makeslice", "nilmap": "nil map",
+			"nilfunc": "nil pointer dereference", "nilinvoke": "nil pointer dereference"}[kind]
+		if want != "" {
+			body.WriteString("\t\t\tif msg := replayPanicText(r); !replayContains(msg, " + fmt.Sprintf("%q", want) + ") {\n\t\t\t\tt.Logf(\"replay inconclusive: a different panic: %v\", r)\n\t\t\t\treturn\n\t\t\t}\n")
+		}
 		body.WriteString("\t\t\tt.Fatalf(\"REPLAY-CONFIRMED: panic: %v\", r)\n")
 	} else {
-		body.WriteString("\t\t\tt.Fatalf(\"REPLAY-CONFIRMED: panic instead of a result: %v\", r)\n")
+		// a panic says nothing about a postcondition: the arguments built from the model are partial (everything
+		// the model does not mention is a zero value), so a panic may just be a violated implicit precondition
+		body.WriteString("\t\t\tt.Logf(\"replay inconclusive: panic before the postcondition could be evaluated: %v\", r)\n")
 	}
 	body.WriteString("\t\t}\n\t}()\n")
 	if nres > 0 {
